@@ -189,6 +189,23 @@ class Tr:
         if isinstance(e, ast.Attribute) and isinstance(e.value, ast.Name) and e.value.id == "TCPOption":
             fail(e, "unknown TCPOption member")
         if isinstance(e, ast.BoolOp):
+            if isinstance(e.op, ast.And):
+                # `x is not None and <uses of x>`: the test narrows x for the operands to its right
+                for i, v in enumerate(e.values[:-1]):
+                    if isinstance(v, ast.Compare) and len(v.ops) == 1 and isinstance(v.ops[0], ast.IsNot) and isinstance(v.left, ast.Name) \
+                            and v.left.id in env and env[v.left.id][1].startswith("OPT ") and isinstance(v.comparators[0], ast.Constant) \
+                            and v.comparators[0].value is None:
+                        inner = self.fresh(v.left.id)
+                        env2 = dict(env)
+                        env2[v.left.id] = (inner, env[v.left.id][1][4:])
+                        rest_vals = e.values[i + 1:]
+                        rest = self.ex(ast.BoolOp(op=ast.And(), values=rest_vals), env2) if len(rest_vals) > 1 else self.truthy(self.ex(rest_vals[0], env2), rest_vals[0])
+                        if rest[0]:
+                            here = (True, "(match %s with Some %s => %s | None => Ok false end)" % (env[v.left.id][0], inner, rest[1]), "B")
+                        else:
+                            here = (False, "(match %s with Some %s => %s | None => false end)" % (env[v.left.id][0], inner, rest[1]), "B")
+                        before = [self.truthy(self.ex(x, env), x) for x in e.values[:i]]
+                        return self.boolop(True, before + [here])
             rs = [self.truthy(self.ex(v, env), v) for v in e.values]
             return self.boolop(isinstance(e.op, ast.And), rs)
         if isinstance(e, ast.UnaryOp) and isinstance(e.op, ast.Not):
@@ -206,9 +223,8 @@ class Tr:
             return self.bind_all([l, r], lambda a: (False, ops[type(e.op)] % (a[0], a[1]), "Z"))
         if isinstance(e, ast.IfExp):
             c = self.truthy(self.ex(e.test, env), e.test)
-            a, b = self.ex(e.body, env), self.ex(e.orelse, env)
-            if isinstance(e.orelse, ast.List) and not e.orelse.elts:
-                b = (False, "[]", a[2])
+            a = self.ex(e.body, env)
+            b = (False, "[]", a[2]) if (isinstance(e.orelse, ast.List) and not e.orelse.elts) else self.ex(e.orelse, env)
             if a[2] != b[2]:
                 fail(e, "branches of different types %s / %s" % (a[2], b[2]))
             if not a[0] and not b[0]:
@@ -399,14 +415,22 @@ class Tr:
                 fail(e, "keyword argument " + str(kw.arg))
             given[kw.arg] = kw.value
         rs = []
+        inst = None
         for name, ty, default, _ in fn.params:
             if name in given:
-                rs.append(self.coerce(self.ex(given[name], env), ty, given[name]))
+                r0 = self.ex(given[name], env)
+                if ty == "DICT A" and r0[2].startswith("DICT "):
+                    inst = r0[2][5:]          # the type variable T of the callee is instantiated by the dict's value type
+                rs.append(self.coerce(r0, ty, given[name]))
             elif default is not None:
                 rs.append((False, default, ty))
             else:
                 fail(e, "missing argument " + name)
         ret = fn.ret
+        if inst is not None and ret in ("A", "FUN A"):
+            ret = ret.replace("A", inst)
+        if ret == "PUREB":
+            return self.bind_all(rs, lambda a: (False, "(gen_%s %s)" % (fn.name, " ".join(a)), "B"))
         if ret.startswith("FUN "):
             return self.bind_all(rs, lambda a: (False, "(gen_%s %s)" % (fn.name, " ".join(a)), ret))
         return self.bind_all(rs, lambda a: (True, "(gen_%s %s)" % (fn.name, " ".join(a)), ret))
@@ -708,6 +732,16 @@ class Tr:
         return Fn(fn.name if cls is None else cls + "_" + fn.name, params, ret, poly)
 
     def function(self, fn, cls=None):
+        if fn.name == "is_wildcard" and cls is None:
+            # value: Union[int, str]; the parsers only ever pass strings: translated at type text
+            body = [x for x in fn.body if not (isinstance(x, ast.Expr) and isinstance(x.value, ast.Constant))]
+            if [a.arg for a in fn.args.args] != ["value"] or len(body) != 1 or not isinstance(body[0], ast.Return):
+                fail(fn, "is_wildcard shape")
+            r = self.coerce(self.ex(body[0].value, {"value": ("value", "T")}), "B", fn)
+            if r[0]:
+                fail(fn, "is_wildcard must be pure")
+            self.fns["is_wildcard"] = Fn("is_wildcard", [("value", "T", None, False)], "PUREB", False)
+            return "Definition gen_is_wildcard (value : text) : bool :=\n  %s." % r[1]
         sig = self.signature(fn, cls)
         env = {}
         ps = []
@@ -733,20 +767,12 @@ class Tr:
             env2[isig.params[0][0]] = (isig.params[0][0], "T")
             term = self.block(inner.body, env2, isig.ret, None)
             self.fns[fn.name] = sig
-            return "%s : text -> res %s :=\n  fun %s => %s." % (head, COQ_TY[isig.ret], isig.params[0][0], term)
+            return "%s : text -> res (%s) :=\n  fun %s => %s." % (head, COQ_TY[isig.ret], isig.params[0][0], term)
         if sig.ret == "LIST T" and any(isinstance(n, ast.Yield) for n in ast.walk(fn)):
             env["__yield__"] = ("[]", "LIST T")
-        if sig.name == "is_wildcard":
-            # value: Union[int, str]; the parsers only ever pass strings: translated at type text
-            env = {"value": ("value", "T")}
-            head = "Definition gen_is_wildcard (value : text)"
-            sig = Fn("is_wildcard", [("value", "T", None, False)], "B", False)
-            term = self.to_m(self.coerce(self.ex(body[-1].value, env), "B", fn))
-            self.fns[fn.name] = Fn("is_wildcard_m", sig.params, "B", False)
-            return "%s : res bool :=\n  %s.\nDefinition gen_is_wildcard_m := gen_is_wildcard." % (head, term)
         term = self.block(body, env, sig.ret, None)
         self.fns[fn.name if cls is None else fn.name] = sig
-        return "%s : res %s :=\n  %s." % (head, COQ_TY[sig.ret], term)
+        return "%s : res (%s) :=\n  %s." % (head, COQ_TY[sig.ret], term)
 
 
 PRELUDE = r"""(* GENERATED by translate/sig2coq.py from pyp0f/database/parse/{utils,wildcard}.py and signatures/{tcp,mtu}.py -- do not edit *)
